@@ -216,8 +216,11 @@ class LeanResult:
         self.build_ok = False
 
 
-def lean_obligations(pid, thorough=False, extra=None):
-    """build Props/<pid>.lean, audit axioms of every theorem in it, grep forbidden tokens"""
+def lean_obligations(pid, thorough=False, extra=None, snapshots=None):
+    """build Props/<pid>.lean, audit axioms of every theorem in it, grep forbidden tokens.
+    `snapshots` = {path: text} of the generated modules as this run wrote them: restored under the lake
+    lock before building, so that a concurrent run against another tree (seeded-change trials) cannot
+    swap the generated text between generation and build."""
     res = LeanResult()
     module = "RtcVerif.Props.%s" % pid
     props = os.path.join(LEAN_DIR, "RtcVerif", "Props", pid + ".lean")
@@ -267,9 +270,19 @@ def lean_obligations(pid, thorough=False, extra=None):
             res.broken.append((module, "declaration uses sorry"))
         # generated modules (source-to-Lean translation, see harness/translate.py): own obligations
         extra_ok = []
+        for epath, etext in (snapshots or {}).items():
+            if not os.path.exists(epath) or open(epath).read() != etext:
+                tmp = epath + ".tmp%d" % os.getpid()
+                with open(tmp, "w") as f:
+                    f.write(etext)
+                os.replace(tmp, epath)
         for (emod, ens, ethms) in (extra or []):
             epath = os.path.join(LEAN_DIR, *emod.split(".")) + ".lean"
-            bad = FORBIDDEN.search(strip_lean_comments(open(epath).read())) if os.path.exists(epath) else None
+            bad = None
+            for m in module_closure(emod):
+                mp = os.path.join(LEAN_DIR, *m.split(".")) + ".lean"
+                if os.path.exists(mp):
+                    bad = bad or FORBIDDEN.search(strip_lean_comments(open(mp).read()))
             ecmd = ["lake", "build", emod]
             res.cmds.append("cd lean && " + " ".join(ecmd))
             pe = subprocess.run(ecmd, cwd=LEAN_DIR, capture_output=True, text=True, timeout=3000)
@@ -304,6 +317,10 @@ def lean_obligations(pid, thorough=False, extra=None):
         aout = p.stdout + p.stderr
         if thorough:
             mods = module_closure(module)
+            for (emod, ens, ethms) in extra_ok:
+                for m in module_closure(emod):
+                    if m not in mods:
+                        mods.append(m)
             ccmd = ["lake", "env", "leanchecker"] + mods
             res.cmds.append("cd lean && lake env leanchecker " + " ".join(mods))
             pc = subprocess.run(ccmd, cwd=LEAN_DIR, capture_output=True, text=True, timeout=3000)
@@ -516,7 +533,12 @@ class Check:
     def prove(self, extra=None):
         """proof obligations of this property (lake build + axiom audit); `extra` = generated modules
         [(module, namespace, [theorem names])] whose theorems count as obligations too"""
-        self.lean = lean_obligations(self.pid, thorough=(self.tier == "thorough"), extra=extra)
+        snaps = {}
+        for (emod, ens, ethms) in (extra or []):
+            epath = os.path.join(LEAN_DIR, *emod.split(".")) + ".lean"
+            if os.path.exists(epath):
+                snaps[epath] = open(epath).read()
+        self.lean = lean_obligations(self.pid, thorough=(self.tier == "thorough"), extra=extra, snapshots=snaps)
         for name, why in self.lean.broken:
             self.broken.append((name, why))
         return self.lean
